@@ -1325,6 +1325,10 @@ func (ex *Exec) convert(v Value, from, to types.Type) Value {
 					bi, _ := bf.Int(nil)
 					return ex.wrapInt(BigLit(bi), to)
 				}
+				if t.Op == "to_fp_int" {
+					// an integer below 2^53 in magnitude converted to float64 and back: exact
+					return ex.wrapInt(t.Args[0], to)
+				}
 				// float→int of a symbolic float: result unconstrained within type (Go: implementation-defined when out of range)
 				r := ex.fresh("f2i", SInt, "env")
 				lo, hi, _ := intRange(to)
